@@ -62,7 +62,8 @@ fn main() {
          without repetition of 0..=L pool rows (L = 3 quick: 157 batches; L = 6 thorough: all 1957 arrangements of the pool, a superset of the designed bound 4 = 517 batches; the duplicate row gives batches with equal rows) x 4 memory layouts (standard, \
          column-major, every second row of a larger array, reversed-row) x calling forms {predict(&Array2), predict(Array2), predict(&Dataset), predict(Dataset), predict_inplace \
          into default_target, predict_inplace into a target holding another batch's result, predict(ArrayView2), predict(&ArrayView2), predict(&Dataset<ArrayView2>)} plus the \
-         composite oracle and predict_inplace with a too long / too short target (standard layout). evaluation = one call of one form on one (batch, layout); \
+         composite oracle, predict_inplace with a too long / too short target (standard layout), and, for the types that have one (k-means, the six SVM entries), the single-observation form \
+         on every pool row as a contiguous / every-second-element / reversed 1-D view. evaluation = one call of one form on one (batch, layout); \
          non-trivial = batch of >= 2 rows whose single-row reference outputs are not all equal (so a permutation / mixing / wrong-axis bug is observable); distinct by construction.",
     );
     ctx.assume("oracle = the same fitted model applied to each pool row alone as a 1 x p standard-layout Array2 through predict(&Array2); output row i of every batch must equal the single-row output of the selected pool row");
